@@ -802,9 +802,14 @@ def check_C11(ctx):
         # (every intermediate form is a well-formed program, so only the budget error can stop it)
         'DEFINE <ID> := 0 AS $0 := 0' + ' ; $0 := 0' * 19 + ' END DEFINE\nx1 := 0',
     ]
-    outs = impl(ctx, ['GEN ' + files_req(b'm', {b'm': t.encode()}) for t in whole], timeout=180)
+    outs = impl(ctx, ['GEN ' + files_req(b'm', {b'm': t.encode()}) for t in whole], timeout=600)
     for t, o in zip(whole, outs):
         ctx.cov['evaluations'] += 1
+        if is_crash(o) and len(t) > 300 and 'timeout' in o.lower():
+            # the fast-growing set is legitimately expensive (about 1000 passes over a stream of up to 80 000 tokens): running
+            # out of wall-clock time on a loaded machine is inconclusive, not a violation (a genuine hang is F11's subject)
+            ctx.cov['fast_growth_inconclusive_timeouts'] = ctx.cov.get('fast_growth_inconclusive_timeouts', 0) + 1
+            continue
         if is_crash(o):
             ctx.violation('expansion-hang', 'compile did not return on a self-reproducing macro: ' + o[:200], {'source': t})
         elif fields(o).get('ok') != '0':
